@@ -38,17 +38,25 @@ ASSUMPTIONS = [
     'is wrapped to capture the path and stop), what follows is database work; main_key is a stub with is_private=True, '
     'depth=0 (a wallet created from a private master key)',
 ]
-_SYM = 'account, address_index in [0, 2^31), change in {0,1}, cosigner_index in [0,15] (all symbolic); refusals: ' \
-       'every int outside those ranges'
+_SYM = ('account, address_index in [0, 2^31), change in {0,1}, cosigner_index in [0,15], all symbolic. Refusals: keyword '
+        'values and list/str values >= 2^31 resp. change > 1: every such int; negative keyword values: every negative '
+        'int; negative values inside a path list / string: the windows [-100,0), -2^31 +- 20, -10^12 +- 10 (list) and '
+        '[-30,0) (string) because the real error message formatting makes CrossHair enumerate the value; too-long '
+        'requests: extra level in [0,2^31) for int/list requests, [0,9] for string requests; wrong level names: 21 '
+        'spellings x every position')
 BOUNDS = {
-    'quick': _SYM + '; configurations: every network and every (witness type, multisig) pair appears at least once for '
-                    'the request forms [] and [change, index]; the other request forms, the wallet methods and the '
-                    'refusals on one configuration per path shape (BIP44-like, BIP45, BIP48)',
-    'thorough': _SYM + '; configurations: all 11 networks x 3 witness types x single/multisig for the request forms [], '
-                       '[change,index], [index], named levels, explicit template (wallet style), public-master request, '
-                       'Wallet.path_expand, Wallet.keys_for_path; spelled-out full paths (list, string, without / with '
-                       'alternative hardened markers), level_offset and normalize_path on one network per coin type x '
-                       'all 6 structures; mixed witness types: all 18 (wallet type, requested type, multisig) triples',
+    'quick': _SYM + '. Configurations: every network and every (witness type, multisig) structure appears at least once '
+                    'for the request forms [] and [change, index] (11 + 11 conditions on the network x structure '
+                    'diagonal); every other request form, the wallet methods, mixed witness types and the refusals on '
+                    'one to three configurations (one per path shape BIP44-like / BIP45 / BIP48)',
+    'thorough': _SYM + '. Configurations: [] and [change, index]: all 11 networks x 3 witness types x single/multisig (66 '
+                       'each); [index], named levels, explicit template (get_key_structure_data), public-master request, '
+                       'Wallet.path_expand, Wallet.keys_for_path, spelled-out full string, level_offset: one network per '
+                       'SLIP-44 coin type (bitcoin, testnet, litecoin, dogecoin) x all 6 structures (keys_for_path also on '
+                       'regtest and bitcoinlib_test); full string without hardened markers on bitcoin+litecoin, full list '
+                       'on bitcoin; alternative markers h H p P and normalize_path on the BIP44 shape plus one or two '
+                       'markers on the BIP45/BIP48 shapes; mixed witness types: all 18 (wallet type, requested type, '
+                       'multisig) triples; purpose override: one value per structure',
 }
 OUTSIDE = ('index issuance without gaps or repeats, address uniqueness and restore equivalence (Wallet.new_key, '
            'new_keys, get_key(s), keys_for_path after its path_expand call, _get_key, new_account, scan) are SQLAlchemy '
@@ -59,8 +67,6 @@ OUTSIDE = ('index issuance without gaps or repeats, address uniqueness and resto
 # ---------------------------------------------------------------------------------------------------------------
 NETWORKS = ('bitcoin', 'testnet', 'testnet4', 'signet', 'regtest', 'litecoin', 'litecoin_legacy', 'litecoin_testnet',
             'dogecoin', 'dogecoin_testnet', 'bitcoinlib_test')
-# one network per distinct SLIP-44 value (0, 1, 2, 3, private) + regtest (the network whose library value differs)
-REP_NETWORKS = ('bitcoin', 'testnet', 'litecoin', 'dogecoin', 'bitcoinlib_test', 'regtest')
 WITNESS_TYPES = ('legacy', 'p2sh-segwit', 'segwit')
 STRUCTS = [(wt, ms) for ms in (False, True) for wt in WITNESS_TYPES]
 
@@ -91,76 +97,98 @@ def _cfg(net, wt, ms):
     return '%r, %r, %r' % (net, wt, ms)
 
 
-# (mode, ck function, one-line meaning, measured seconds, timeout)
-CORE_MODES = [
-    ('empty', 'ck_empty', 'path_expand([], account_id, change, address_index, cosigner_id) == BIP path', 15, 180),
-    ('ci', 'ck_ci', 'path_expand([change, index]) == BIP path', 9, 180),
-    ('i', 'ck_i', 'path_expand([index], change=) == BIP path', 29, 240),
-    ('named', 'ck_named', 'full path given by level names == BIP path', 16, 180),
-    ('wstyle', 'ck_wallet_style', 'get_key_structure_data gives the BIP template/purpose/encoding and path_expand with '
-                                  'that explicit template == BIP path', 9, 180),
-    ('pubmaster', 'ck_public_master', 'HDKey.public_master request == account-level BIP path', 12, 180),
-    ('wmethod', 'ck_wallet_method', 'Wallet.path_expand == BIP path', 20, 240),
-    ('kfp', 'ck_keys_for_path', 'path Wallet.keys_for_path is about to derive == BIP path', 15, 180),
-]
-FORM_MODES = [
-    ('fulllist', 'ck_full_list', "['m', \"84'\", \"0'\", \"a'\", 'c', 'i'] returned unchanged", 40, 300),
-    ('fullstr', 'ck_full_str', '"m/84\'/0\'/a\'/c/i" == BIP path', 52, 360),
-    ('fullbare', 'ck_full_bare', '"m/84/0/a/c/i": BIP-hardened levels come back hardened', 70, 420),
-    ('levels', 'ck_account_level', 'level_offset -1, -2, n, 1 give the BIP path prefixes', 40, 300),
-]
+# one network per distinct SLIP-44 value (0, 1, 2, 3)
+NET4 = ('bitcoin', 'testnet', 'litecoin', 'dogecoin')
+SHAPE = {False: 'bip44', True: 'bip48'}
+
+# (mode, ck function, one-line meaning, timeout, cost on the 6-/7-level shapes, cost on the BIP45 shape): measured seconds
+# on a loaded machine (4 CrossHair processes in parallel)
+M = {
+    'empty': ('ck_empty', 'path_expand([], account_id, change, address_index, cosigner_id) == BIP path', 180, 19, 5),
+    'ci': ('ck_ci', 'path_expand([change, index]) == BIP path', 300, 29, 9),
+    'i': ('ck_i', 'path_expand([index], change=) == BIP path', 240, 23, 8),
+    'named': ('ck_named', 'full path given by level names == BIP path', 180, 20, 5),
+    'wstyle': ('ck_wallet_style', 'get_key_structure_data gives the BIP template/purpose/encoding and path_expand with '
+                                  'that explicit template == BIP path', 240, 24, 8),
+    'pubmaster': ('ck_public_master', 'HDKey.public_master request == account-level BIP path', 180, 15, 4),
+    'wmethod': ('ck_wallet_method', 'Wallet.path_expand == BIP path', 300, 38, 15),
+    'kfp': ('ck_keys_for_path', 'path Wallet.keys_for_path is about to derive == BIP path', 300, 32, 9),
+    'fulllist': ('ck_full_list', "['m', \"84'\", \"0'\", \"a'\", 'c', 'i'] returned unchanged", 300, 44, 12),
+    'fullstr': ('ck_full_str', '"m/84\'/0\'/a\'/c/i" == BIP path', 420, 64, 13),
+    'fullbare': ('ck_full_bare', '"m/84/0/a/c/i": BIP-hardened levels come back hardened', 420, 60, 14),
+    'levels': ('ck_account_level', 'level_offset -1, -2, n, 1 give the BIP path prefixes', 300, 36, 12),
+}
+
+
+def _modes_for(net):
+    """request forms checked for every structure of this network in the thorough tier"""
+    modes = ['empty', 'ci']                                      # every network
+    if net in NET4:
+        modes += ['i', 'named', 'wstyle', 'pubmaster', 'wmethod', 'kfp', 'fullstr', 'levels']
+    if net in ('bitcoin', 'litecoin'):
+        modes += ['fullbare']
+    if net == 'bitcoin':
+        modes += ['fulllist']
+    if net in ('regtest', 'bitcoinlib_test'):
+        modes += ['kfp']
+    return modes
+
+
+QUICK = {
+    # [] and [c, i] walk networks x structures diagonally in conditions(); the other forms: one per path shape
+    'i': [('testnet', 'legacy', False), ('dogecoin', 'legacy', True)],
+    'named': [('litecoin', 'p2sh-segwit', False), ('testnet', 'legacy', True), ('bitcoin', 'segwit', True)],
+    'wstyle': [('litecoin', 'p2sh-segwit', False), ('dogecoin', 'legacy', True), ('bitcoin', 'segwit', True)],
+    'pubmaster': [('litecoin', 'p2sh-segwit', False), ('testnet', 'legacy', True), ('bitcoin', 'segwit', True)],
+    'kfp': [('litecoin', 'p2sh-segwit', False), ('dogecoin', 'legacy', True), ('bitcoin', 'segwit', True)],
+    'wmethod': [('testnet', 'legacy', False), ('dogecoin', 'p2sh-segwit', True)],
+    'fullstr': [('bitcoin', 'segwit', False), ('litecoin', 'legacy', True)],
+    'fullbare': [('litecoin', 'p2sh-segwit', True)],
+    'levels': [('dogecoin', 'segwit', True)],
+    'fulllist': [('bitcoin', 'legacy', False)],
+}
 
 
 def conditions():
     out = []
-    # -- paths: every configuration x core request forms
-    qi = 0
+    # -- request forms x configurations
     for ni, net in enumerate(NETWORKS):
         for si, (wt, ms) in enumerate(STRUCTS):
-            for mode, ck, proves, cost, to in CORE_MODES:
-                # quick: [] and [c,i] walk the networks and structures diagonally (every network, every structure),
-                # the other forms on three structures (one per path shape) with rotating networks
-                q = False
+            for mode in _modes_for(net):
+                ck, proves, to, cost, cost45 = M[mode]
                 if mode in ('empty', 'ci'):
                     q = (si == ni % 6) or (net == 'regtest' and (wt, ms) == ('segwit', False) and mode == 'ci')
-                elif mode in ('named', 'wstyle', 'pubmaster', 'kfp'):
-                    q = (net, wt, ms) in (('litecoin', 'p2sh-segwit', False), ('dogecoin_testnet', 'legacy', True),
-                                          ('bitcoin', 'segwit', True))
-                elif mode in ('i', 'wmethod'):
-                    q = (net, wt, ms) in (('testnet', 'legacy', False), ('dogecoin', 'p2sh-segwit', True))
-                out.append(Cond('paths', '%s__%s' % (mode, _tag(net, wt, ms)), P4, R,
-                                'O.%s(%s, %s)' % (ck, _cfg(net, wt, ms), A4), proves, to, cost, q))
-    # -- forms: spelled-out paths, level_offset; one network per coin type x all structures
-    for net in REP_NETWORKS:
-        for wt, ms in STRUCTS:
-            for mode, ck, proves, cost, to in FORM_MODES:
-                if mode == 'fulllist' and net not in ('bitcoin', 'regtest'):
-                    continue        # the string form goes through the same list code after split('/')
-                q = (mode, net, wt, ms) in (('fullstr', 'bitcoin', 'segwit', False), ('fullstr', 'litecoin', 'legacy', True),
-                                            ('fullbare', 'testnet', 'p2sh-segwit', True),
-                                            ('levels', 'dogecoin', 'segwit', True), ('fulllist', 'bitcoin', 'legacy', False))
-                out.append(Cond('forms', '%s__%s' % (mode, _tag(net, wt, ms)), P4, R,
-                                'O.%s(%s, %s)' % (ck, _cfg(net, wt, ms), A4), proves, to, cost, q))
-    # alternative hardened markers and normalize_path: per marker x structure on bitcoin
-    for wt, ms in STRUCTS:
-        for mk, mname in enumerate(('h', 'H', 'p', 'P')):
+                else:
+                    q = (net, wt, ms) in QUICK.get(mode, ())
+                fam = 'paths' if mode in ('empty', 'ci', 'i', 'named') else \
+                    'wallet' if mode in ('wstyle', 'pubmaster', 'wmethod', 'kfp') else 'forms'
+                out.append(Cond(fam, '%s__%s' % (mode, _tag(net, wt, ms)), P4, R,
+                                'O.%s(%s, %s)' % (ck, _cfg(net, wt, ms), A4), proves, to,
+                                cost45 if (wt, ms) == ('legacy', True) else cost, q))
+    # -- alternative hardened markers: h H p P on the BIP44 shape, h on the two multisig shapes
+    for (wt, ms), marks in ((('p2sh-segwit', False), 'hHpP'), (('legacy', True), 'h'), (('segwit', True), 'P')):
+        for mname in marks:
+            mk = 'hHpP'.index(mname)
             out.append(Cond('forms', 'marker_%s__%s' % (mname if mname.islower() else 'cap' + mname, _tag('bitcoin', wt, ms)),
                             P4, R, 'O.ck_full_h(%s, %s, %d)' % (_cfg('bitcoin', wt, ms), A4, mk),
-                            'full path with hardened marker %r is normalised to \' and == BIP path' % mname, 420, 75,
-                            (mname, wt, ms) == ('h', 'legacy', False)))
-        for mk, mname in enumerate(('q', 'h', 'capH', 'p', 'capP')):
-            out.append(Cond('forms', 'normalize_%s__%s' % (mname, _tag('bitcoin', wt, ms)), P4, R,
-                            'O.ck_normalize(%s, %s, %d)' % (_cfg('bitcoin', wt, ms), A4, mk),
+                            'full path with hardened marker %r is normalised to \' and == BIP path' % mname, 420, 60,
+                            (mname, ms) == ('h', False)))
+    # -- wallets.normalize_path: every marker on the BIP44 shape, two on the multisig shapes
+    NM = ('q', 'h', 'capH', 'p', 'capP')
+    for (wt, ms), marks in ((('legacy', False), NM), (('legacy', True), ('q', 'capH')), (('p2sh-segwit', True), ('q', 'p'))):
+        for mname in marks:
+            out.append(Cond('forms', 'normalize_%s__%s' % (mname, _tag('testnet', wt, ms)), P4, R,
+                            'O.ck_normalize(%s, %s, %d)' % (_cfg('testnet', wt, ms), A4, NM.index(mname)),
                             'wallets.normalize_path maps the marker to \' and is the identity on the expanded path', 420,
-                            70, (mname, wt, ms) == ('capP', 'segwit', True)))
-    # purpose override
+                            60, (mname, ms) == ('capP', False)))
+    # -- purpose override
     for (wt, ms), pu in zip(STRUCTS, (1, 86, 44, 48, 45, 87)):
         out.append(Cond('forms', 'purpose_%d__%s' % (pu, _tag('litecoin', wt, ms)), P4, R,
                         'O.ck_purpose_override(%s, %s, %d)' % (_cfg('litecoin', wt, ms), A4, pu),
                         'get_key_structure_data(purpose=%d) overrules the purpose, path_expand(template, purpose) uses it'
-                        % pu, 180, 12, pu == 86))
+                        % pu, 240, 10 if (wt, ms) == ('legacy', True) else 30, pu == 86))
     out.append(Cond('forms', 'defaults', 'c: int, i: int', '0 <= c <= 1 and 0 <= i < 2**31', 'O.ck_defaults(c, i)',
-                    'defaults are account 0 / bitcoin / single-sig BIP84 (documented example)', 180, 10, True))
+                    'defaults are account 0 / bitcoin / single-sig BIP84 (documented example)', 180, 8, True))
     # -- mixed witness types in one wallet
     for ms in (False, True):
         for wt in WITNESS_TYPES:
@@ -169,9 +197,9 @@ def conditions():
                 out.append(Cond('wallet', 'mixed__%s__asks_%s' % (_tag(net, wt, ms), wt2.replace('-', '_')), P4, R,
                                 'O.ck_keys_for_path_mixed(%r, %r, %r, %r, %s)' % (net, wt, wt2, ms, A4),
                                 'Wallet(%s).keys_for_path(witness_type=%s) requests the documented path of %s'
-                                % (wt, wt2, wt2), 180, 15,
+                                % (wt, wt2, wt2), 300, 32,
                                 (wt, wt2, ms) in (('segwit', 'legacy', False), ('segwit', 'p2sh-segwit', True),
-                                                  ('segwit', 'legacy', True))))
+                                                  ('segwit', 'legacy', True), ('legacy', 'segwit', True))))
     # -- refusals
     big = '2**31 <= v'
     neg = 'v < 0'
@@ -185,40 +213,55 @@ def conditions():
         for tag, pre in pres:
             out.append(Cond('refuse', 'refuse_kw_%s_%s' % (which, tag), 'v: int', pre,
                             'O.ck_refuse_kw(%s, %r, v)' % (cfg, which),
-                            'path_expand([], %s=v) raises for v %s' % (which, pre), 120, 8, tag == 'neg' or which == 'change'))
-    out.append(Cond('refuse', 'refuse_list_neg', 'c: int, i: int', 'c < 0 or i < 0', 'O.ck_refuse_list(%s, c, i)' % S44,
-                    'path_expand([c, i]) raises when c or i is negative', 180, 15, True))
+                            'path_expand([], %s=v) raises for v %s' % (which, pre), 120, 3, tag == 'neg' or which == 'change'))
+    # negative numbers inside the path: the error message of the real code ("Variable %s not found" % name) makes
+    # CrossHair enumerate the offending value, so the negative ranges are windows (see BOUNDS)
+    WIN = '(-100 <= %(v)s < 0 or -2**31 - 20 <= %(v)s <= -2**31 + 20 or -10**12 - 10 <= %(v)s <= -10**12 + 10)'
+    out.append(Cond('refuse', 'refuse_list_neg_index', 'c: int, i: int', '0 <= c <= 1 and ' + WIN % dict(v='i'),
+                    'O.ck_refuse_list(%s, c, i)' % S44, 'path_expand([c, i]) raises when i is negative', 300, 20, True))
+    out.append(Cond('refuse', 'refuse_list_neg_change', 'c: int, i: int', '0 <= i < 2**31 and ' + WIN % dict(v='c'),
+                    'O.ck_refuse_list(%s, c, i)' % S48, 'path_expand([c, i]) raises when c is negative', 300, 20, False))
     out.append(Cond('refuse', 'refuse_list_big', 'c: int, i: int', '0 <= c <= 1 and i >= 2**31',
-                    'O.ck_refuse_list(%s, c, i)' % S44, 'path_expand([c, i]) raises for i >= 2^31', 120, 8, True))
+                    'O.ck_refuse_list(%s, c, i)' % S44, 'path_expand([c, i]) raises for i >= 2^31', 120, 4, True))
     out.append(Cond('refuse', 'refuse_list_change', 'c: int, i: int', 'c > 1 and 0 <= i < 2**31',
-                    'O.ck_refuse_list(%s, c, i)' % S48, 'path_expand([c, i]) raises for change > 1', 120, 8, False))
-    out.append(Cond('refuse', 'refuse_full_neg', P4, '(a < 0 or c < 0 or i < 0) and k == 0',
-                    'O.ck_refuse_full(%s, %s)' % (S48, A4), 'a negative number inside "m/.../..." raises', 240, 30, True))
+                    'O.ck_refuse_list(%s, c, i)' % S48, 'path_expand([c, i]) raises for change > 1', 120, 4, False))
+    out.append(Cond('refuse', 'refuse_full_neg', P4, '-30 <= a < 0 and 0 <= c <= 1 and 0 <= i < 2**31 and k == 0',
+                    'O.ck_refuse_full(%s, %s)' % (S48, A4), 'a negative account inside "m/.../..." raises', 300, 60, True))
     out.append(Cond('refuse', 'refuse_full_big', P4, 'a >= 2**31 and 0 <= c <= 1 and 0 <= i < 2**31 and k == 0',
-                    'O.ck_refuse_full(%s, %s)' % (S44, A4), 'an account >= 2^31 inside "m/.../..." raises', 120, 10, False))
-    for cfg, shape in ((S44, 'bip44'), (S45, 'bip45'), (S48, 'bip48')):
+                    'O.ck_refuse_full(%s, %s)' % (S44, A4), 'an account >= 2^31 inside "m/.../..." raises', 120, 5, False))
+    for cfg, shape, npos in ((S44, 'bip44', 5), (S45, 'bip45', 4), (S48, 'bip48', 6)):
         for form, fname in enumerate(('ints', 'list', 'str', 'relstr')):
-            out.append(Cond('refuse', 'refuse_too_long_%s_%s' % (fname, shape), P4 + ', x: int', R + ' and 0 <= x < 2**31',
+            xr = ' and 0 <= x < 2**31' if form < 2 else ' and 0 <= x <= 9'
+            out.append(Cond('refuse', 'refuse_too_long_%s_%s' % (fname, shape), P4 + ', x: int', R + xr,
                             'O.ck_refuse_too_long(%s, %s, x, %d)' % (cfg, A4, form),
-                            'a request with one level more than the %s shape raises' % shape, 300, 30,
+                            'a request with one level more than the %s shape raises' % shape, 420,
+                            (5 if shape == 'bip45' else 90 if fname == 'list' else 20),
                             (fname, shape) in (('ints', 'bip48'), ('str', 'bip44'))))
-        out.append(Cond('refuse', 'refuse_wrong_name_%s' % shape, P4 + ', pos: int, w: int',
-                        R + ' and 0 <= pos <= 5 and 0 <= w <= 20',
-                        'O.ck_refuse_wrong_name(%s, %s, pos, w)' % (cfg, A4),
-                        'a level that is neither a number nor a documented level name raises (21 spellings x every '
-                        'position)', 600, 120, shape == 'bip44'))
-        out.append(Cond('refuse', 'refuse_name_network_%s' % shape, P4 + ', pos: int', R + ' and 0 <= pos <= 5',
+        for lo, hi in ((0, 6), (7, 13), (14, 20)):
+            out.append(Cond('refuse', 'refuse_wrong_name_%d_%d_%s' % (lo, hi, shape), P4 + ', pos: int, w: int',
+                            R + ' and 0 <= pos < %d and %d <= w <= %d' % (npos, lo, hi),
+                            'O.ck_refuse_wrong_name(%s, %s, pos, w)' % (cfg, A4),
+                            'a level that is neither a number nor a documented level name raises (spellings %d..%d of '
+                            'WRONG_NAMES x every position)' % (lo, hi), 420, 70, (shape, lo) == ('bip44', 0)))
+        for w in (1, 16):
+            out.append(Cond('refuse', 'refuse_wrong_name_numeric_%d_%s' % (w, shape), P4 + ', pos: int',
+                            R + ' and 0 <= pos < %d' % npos,
+                            'O.ck_refuse_wrong_name_numeric(%s, %s, pos, %d)' % (cfg, A4, w),
+                            'a non-numeric level inside a spelled-out numeric path raises', 420, 60, False))
+        out.append(Cond('refuse', 'refuse_name_network_%s' % shape, P4 + ', pos: int', R + ' and 0 <= pos < %d' % npos,
                         'O.ck_refuse_name_network(%s, %s, pos)' % (cfg, A4),
-                        "'network' used as a level raises or at least yields no non-numeric element", 120, 10,
+                        "'network' used as a level raises or at least yields no non-numeric element", 120, 4,
                         shape == 'bip44'))
         for form, fname in enumerate(('trailing_slash', 'double_slash', 'list_item', 'empty_string')):
+            if shape != 'bip44' and form:
+                continue
             out.append(Cond('refuse', 'refuse_empty_level_%s_%s' % (fname, shape), P4, R,
                             'O.ck_refuse_empty_level(%s, %s, %d)' % (cfg, A4, form),
-                            'an empty level raises or at least yields no empty element', 120, 10,
+                            'an empty level raises or at least yields no empty element', 120, 5,
                             (fname, shape) == ('trailing_slash', 'bip44')))
     out.append(Cond('refuse', 'refuse_unknown', 'a: int, c: int, i: int, sel: int',
                     '0 <= a < 2**31 and 0 <= c <= 1 and 0 <= i < 2**31 and 0 <= sel <= 9', 'O.ck_refuse_unknown(a, c, i, sel)',
-                    'unknown witness type / network / structure, non-list path, missing address_index raise', 240, 30, True))
+                    'unknown witness type / network / structure, non-list path, missing address_index raise', 180, 5, True))
     names = [c.name for c in out]
     assert len(set(names)) == len(names), 'duplicate condition names'
     return out
